@@ -289,7 +289,9 @@ def replay(ctx, case):
 
 FRAGS = ["*e*", "**s**", "_u_", "~~d~~", "`c`", "`` a`b ``", "[l](u)", "[l](u \"t\")", "![i](s)", "![a *b*](s 't')", "&amp;", "&#35;", "&copy;", "\\*", "\\\\", "<b>", "</b>",
          "<!-- c -->", "<http://a.b>", "<m@n.o>", "x", "y z", "é", "1", "a_b_c", "\"q\"", "'s'", "--", "...", "(c)", "http://x.y/z", "www.a.bc", "[r]", "!", "(", ")", "[", "]",
-         "*", "_", "`", "~", "|", "#", "\\", "&", "<", ">", "+", "=", ":"]
+         "*", "_", "`", "~", "|", "#", "\\", "&", "<", ">", "+", "=", ":",
+         # characters that str.splitlines()/str.isspace() single out but Markdown treats as ordinary text
+         "a\x0cb", "x\u2028y", "p\x85q", "\x1c", "m\x0bn", "\u2029", "\x1e", "\u200b", "\xa0", "\u3000z"]
 
 
 def gen_t(rng):
